@@ -143,30 +143,34 @@ Except(rec, cols) == LET keep == {k \in 1..Len(rec) : ~Member(cols, k)} IN
                      LET F[k \in 0..Len(rec)] == IF k = 0 THEN <<>> ELSE IF k \in keep THEN Append(F[k - 1], rec[k]) ELSE F[k - 1]
                      IN F[Len(rec)]
 
+Consts(n) == [k \in 1..n |-> "CONST"]
+
 \* evaluate the select list left to right.  acc = [cells, upos, ulist, nun, err, cls]
 RECURSIVE EvalItems(_, _, _)
 EvalItems(items, env, acc) ==
     IF items = <<>> \/ acc.err THEN acc
     ELSE LET it == CoreItem(items[1]) IN
          EvalItems(Tail(items), env,
-           CASE it[1] = "star"  -> [acc EXCEPT !.cells = @ \o env.a \o (IF env.hasb \/ q.join = "none" THEN env.b ELSE [k \in 1..env.bnf |-> None])]
-             [] it[1] = "astar" -> [acc EXCEPT !.cells = @ \o env.a]
-             [] it[1] = "bstar" -> [acc EXCEPT !.cells = @ \o (IF env.hasb THEN env.b ELSE [k \in 1..env.bnf |-> None])]
+           CASE it[1] = "star"  -> LET bs == (IF env.hasb \/ q.join = "none" THEN env.b ELSE [k \in 1..env.bnf |-> None]) IN
+                                   [acc EXCEPT !.cells = @ \o env.a \o bs, !.kinds = @ \o Consts(Len(env.a) + Len(bs))]
+             [] it[1] = "astar" -> [acc EXCEPT !.cells = @ \o env.a, !.kinds = @ \o Consts(Len(env.a))]
+             [] it[1] = "bstar" -> LET bs == (IF env.hasb THEN env.b ELSE [k \in 1..env.bnf |-> None]) IN
+                                   [acc EXCEPT !.cells = @ \o bs, !.kinds = @ \o Consts(Len(bs))]
              [] it[1] = "unnest" -> LET l == EvalList(it[2], env) IN
                                     IF IsErr(l) THEN [acc EXCEPT !.err = TRUE, !.cls = "runtime"]
                                     ELSE IF acc.nun >= 1 THEN [acc EXCEPT !.err = TRUE, !.cls = "parsing"]     \* Only one UNNEST is allowed
-                                    ELSE [acc EXCEPT !.cells = Append(@, None), !.upos = Len(acc.cells) + 1, !.ulist = l[2], !.nun = 1]
+                                    ELSE [acc EXCEPT !.cells = Append(@, None), !.kinds = Append(@, "CONST"), !.upos = Len(acc.cells) + 1, !.ulist = l[2], !.nun = 1]
              [] it[1] \in {"aggplus", "aggattr"} -> LET v == Eval(it[3], env) IN
                                  IF IsErr(v) THEN [acc EXCEPT !.err = TRUE, !.cls = "runtime"]
                                  ELSE [acc EXCEPT !.err = TRUE, !.cls = "parsing"]       \* "Usage of RBQL aggregation functions inside Python expressions is not allowed"
              [] it[1] = "agg" -> LET v == Eval(it[3], env) IN
                                  IF IsErr(v) THEN [acc EXCEPT !.err = TRUE, !.cls = "runtime"]
-                                 ELSE [acc EXCEPT !.cells = Append(@, v)]
+                                 ELSE [acc EXCEPT !.cells = Append(@, v), !.kinds = Append(@, it[2])]           \* an aggregate column: kind = the function
              [] OTHER -> LET v == Eval(it[2], env) IN
                          IF IsErr(v) THEN [acc EXCEPT !.err = TRUE, !.cls = "runtime"]
-                         ELSE [acc EXCEPT !.cells = Append(@, v)])
+                         ELSE [acc EXCEPT !.cells = Append(@, v), !.kinds = Append(@, "CONST")])
 
-Acc0 == [cells |-> <<>>, upos |-> 0, ulist |-> <<>>, nun |-> 0, err |-> FALSE, cls |-> ""]
+Acc0 == [cells |-> <<>>, kinds |-> <<>>, upos |-> 0, ulist |-> <<>>, nun |-> 0, err |-> FALSE, cls |-> ""]
 
 RECURSIVE EvalKeys(_, _)
 EvalKeys(es, env) == IF es = <<>> THEN <<>> ELSE <<Eval(es[1], env)>> \o EvalKeys(Tail(es), env)
@@ -176,10 +180,10 @@ AnyErr(vs) == \E k \in 1..Len(vs) : IsErr(vs[k])
 PairOut(i, j) ==
     LET env == EnvOf(i, j, 0)
         w   == Eval(q.where, env)
-        E(c) == [err |-> TRUE, cls |-> c, rows |-> <<>>, key |-> <<>>, gkey |-> <<>>, folded |-> <<>>, pass |-> FALSE]
+        E(c) == [err |-> TRUE, cls |-> c, rows |-> <<>>, key |-> <<>>, gkey |-> <<>>, folded |-> <<>>, kinds |-> <<>>, pass |-> FALSE]
     IN IF IsErr(w) THEN E("runtime")
-       ELSE IF ~Truthy(w) THEN [err |-> FALSE, cls |-> "", rows |-> <<>>, key |-> <<>>, gkey |-> <<>>, folded |-> <<>>, pass |-> FALSE]
-       ELSE LET acc == IF q.hasexc THEN [Acc0 EXCEPT !.cells = Except(env.a, q.exc)] ELSE EvalItems(q.items, env, Acc0) IN
+       ELSE IF ~Truthy(w) THEN [err |-> FALSE, cls |-> "", rows |-> <<>>, key |-> <<>>, gkey |-> <<>>, folded |-> <<>>, kinds |-> <<>>, pass |-> FALSE]
+       ELSE LET acc == IF q.hasexc THEN [Acc0 EXCEPT !.cells = Except(env.a, q.exc), !.kinds = Consts(Len(Except(env.a, q.exc)))] ELSE EvalItems(q.items, env, Acc0) IN
             IF acc.err THEN E(acc.cls)
             ELSE LET gk == EvalKeys(q.group, env)
                      sk == EvalKeys(q.order, env) IN
@@ -188,7 +192,7 @@ PairOut(i, j) ==
                  ELSE [err |-> FALSE, cls |-> "",
                        rows |-> IF acc.upos = 0 THEN <<acc.cells>>
                                 ELSE [k \in 1..Len(acc.ulist) |-> [acc.cells EXCEPT ![acc.upos] = acc.ulist[k]]],
-                       key |-> sk, gkey |-> gk, folded |-> acc.cells, pass |-> TRUE]
+                       key |-> sk, gkey |-> gk, folded |-> acc.cells, kinds |-> acc.kinds, pass |-> TRUE]
 
 --------------------------------------------------------------------------
 (* UPDATE of one record (C05) *)
@@ -359,9 +363,9 @@ UnitErrCls(u) == IF u.kind = "pair" \/ u.kind = "nopartner" THEN "" ELSE "runtim
 \* SELECT, not aggregated
 SelOuts == [k \in 1..Len(AllUnits) |->
               LET u == AllUnits[k] IN
-              IF u.kind # "pair" THEN [err |-> TRUE, cls |-> "runtime", fld |-> u.fld, rows |-> <<>>, key |-> <<>>, gkey |-> <<>>, folded |-> <<>>, pass |-> FALSE, i |-> u.i]
+              IF u.kind # "pair" THEN [err |-> TRUE, cls |-> "runtime", fld |-> u.fld, rows |-> <<>>, key |-> <<>>, gkey |-> <<>>, folded |-> <<>>, kinds |-> <<>>, pass |-> FALSE, i |-> u.i]
               ELSE LET p == PairOut(u.i, u.j) IN
-                   [err |-> p.err, cls |-> p.cls, fld |-> 0, rows |-> p.rows, key |-> p.key, gkey |-> p.gkey, folded |-> p.folded, pass |-> p.pass, i |-> u.i]]
+                   [err |-> p.err, cls |-> p.cls, fld |-> 0, rows |-> p.rows, key |-> p.key, gkey |-> p.gkey, folded |-> p.folded, kinds |-> p.kinds, pass |-> p.pass, i |-> u.i]]
 
 FirstErrIdx(outs) == LET bad == {k \in 1..Len(outs) : outs[k].err} IN
                      IF bad = {} THEN 0 ELSE CHOOSE k \in bad : \A m \in bad : k <= m
@@ -385,9 +389,12 @@ ColumnRaw(outs, key, c) == LET idx == {k \in 1..Len(outs) : outs[k].gkey = key} 
 AggRef(passing) ==
     \* passing: the SelOuts entries with pass = TRUE, in input order
     LET keys == GroupKeysOf(passing)
-        ncol == Len(q.items)
-        Cell(key, c) == LET it == CoreItem(q.items[c]) raw == ColumnRaw(passing, key, c) IN
-                        IF it[1] = "agg" THEN AggOf(it[2], raw)
+        \* the output columns are the cells of the evaluated select list (star forms contribute one column per field);
+        \* their kinds are discovered on the first passing record
+        kinds == IF passing = <<>> THEN <<>> ELSE passing[1].kinds
+        ncol == Len(kinds)
+        Cell(key, c) == LET raw == ColumnRaw(passing, key, c) IN
+                        IF kinds[c] # "CONST" THEN AggOf(kinds[c], raw)
                         ELSE IF \A m \in 1..Len(raw) : VEq(raw[m], raw[1]) THEN raw[1] ELSE <<"NONCONST">>
         rows == [k \in 1..Len(keys) |-> [c \in 1..ncol |-> Cell(keys[k], c)]]
         bad  == \E k \in 1..Len(rows) : \E c \in 1..ncol : rows[k][c] = Err \/ rows[k][c] = <<"NONCONST">>
@@ -397,9 +404,8 @@ AggRef(passing) ==
 \* column differs from the first value of its group (the accumulators check while accumulating)
 AggUnitBad(outs, k) ==
     /\ outs[k].pass
-    /\ \E c \in 1..Len(q.items) :
-         LET it == CoreItem(q.items[c]) IN
-         IF it[1] = "agg" THEN NumericAgg(it[2]) /\ IsErr(ToNum(outs[k].folded[c]))
+    /\ \E c \in 1..Len(outs[k].kinds) :
+         IF outs[k].kinds[c] # "CONST" THEN NumericAgg(outs[k].kinds[c]) /\ IsErr(ToNum(outs[k].folded[c]))
          ELSE \E m \in 1..(k - 1) : outs[m].pass /\ outs[m].gkey = outs[k].gkey /\ ~VEq(outs[m].folded[c], outs[k].folded[c])
                                     /\ (\A n \in 1..(m - 1) : ~(outs[n].pass /\ outs[n].gkey = outs[k].gkey))
 
@@ -618,7 +624,7 @@ Match ==
             THEN \* first-record discovery of the aggregate columns, then accumulation (select_aggregated)
                  IF aggst < 2 /\ AggParseError
                  THEN /\ Fail("parsing", 0, 0) /\ UNCHANGED <<matches, cands, candkey, uset, aggst, aggcols, aggkeys>>
-                 ELSE LET cols0 == IF aggst < 2 THEN [c \in 1..Len(q.items) |-> [f |-> IF IsAggItem(q.items[c]) THEN CoreItem(q.items[c])[2] ELSE "CONST", keys |-> <<>>, vals |-> <<>>]]
+                 ELSE LET cols0 == IF aggst < 2 THEN [c \in 1..Len(p.kinds) |-> [f |-> p.kinds[c], keys |-> <<>>, vals |-> <<>>]]
                                    ELSE aggcols
                           cols1 == [c \in 1..Len(cols0) |-> AccPut(cols0[c], p.gkey, p.folded[c])]
                           \* the implementation converts / verifies while accumulating: a bad value fails at this record
